@@ -66,7 +66,10 @@ namespace
                 size_t n = rd.read(buf.data(), (std::streamsize)buf.size());
                 if (n > want) fail("read-beyond-entry", fd.name + ": " + std::to_string(n) + " > " + std::to_string(want));
                 buf.resize(n);
-                total += n;
+                // entries are read by name: a duplicate name yields the same bytes again and is counted once
+                bool dup = false;
+                for (auto& f : l.files) { if (f.first == fd.name) dup = true; }
+                if (!dup) total += n;
             }
             l.files.push_back({ fd.name, buf });
         }
